@@ -214,7 +214,7 @@ class Runner:
             ctx.violation(what, sig=sig, case=c)
 
 
-def _gen(ctx, r, cfgname, n, depth, label, fine=False, subs=(), excluded=()):
+def _gen(ctx, r, cfgname, n, depth, label, fine=False, subs=(), excluded=(), least=None):
     files = {"X.cfg": _cfg(cfgname, fine=fine, subs=subs)}
     module = "Type2MC"
     if excluded:
@@ -226,7 +226,7 @@ def _gen(ctx, r, cfgname, n, depth, label, fine=False, subs=(), excluded=()):
     if res.violated:
         raise vlib.Infra("%s: the generator violates %s -- the spec is wrong, not the code:\n%s"
                          % (label, res.violated, res.error_text[:1500]))
-    if len(res.cases) < n // (16 if fine else 5):
+    if len(res.cases) < (least if least is not None else n // (16 if fine else 5)):
         raise vlib.Infra("%s produced only %d programs" % (label, len(res.cases)))
     return res.cases
 
@@ -323,6 +323,12 @@ def run(ctx):
         ctx.sample({"fault_case": cases[0]})
         fails = r.replay(cases, "fault programs")
         r.report(fails, "fault")
+    # drawing before the first move, after every kind of operator that may precede it (stems, masks, width): a fault
+    # class of its own run, so that it does not depend on what the mixed run happens to draw
+    cases = _gen(ctx, r, "Type2Fault.cfg", ctx.pick(400, 2400), 2000, "Type2 fault programs (drawing before the first move)",
+                 subs=[("Faults <- AllFaults", "Faults <- DrawFirstOnly")], least=20)   # most behaviours move first
+    fails = r.replay(cases, "draw-first programs")
+    r.report(fails, "fault")
     cases = _gen(ctx, r, "Type2Fault.cfg", ctx.pick(150, 1000), 2000, "Type2 fault programs (operator on an empty stack)",
                  subs=[("Faults <- AllFaults", "Faults <- LenientFaults")])
     fails = r.replay(cases, "empty-stack programs")
